@@ -9,3 +9,5 @@ open Biogo.Properties.C04_seq
 #print axioms fasta_final_newline_any
 #print axioms fasta_trailing_blanks_any
 #print axioms fasta_blank_line_any
+#print axioms fastq_crlf_any
+#print axioms fastq_trailing_blanks_any
